@@ -1,20 +1,78 @@
 // Includes the real /repo headers (found through -I/repo/include at compile time) with the scalar
 // type substituted at the preprocessor level.  All system / Eigen headers are included first (sym.hpp),
 // so the include guards make the library's own #includes no-ops and only library text sees the macros.
+// Every Eigen double typedef is redirected as well, so that a refactoring of the library that starts using
+// e.g. Eigen::ArrayXd or Vector3d is still executed symbolically instead of breaking the build.
 #pragma once
 #include "sym.hpp"
 #ifndef SYMX_NATIVE
 #define double ::symx::Sym
-#define VectorXd Matrix< ::symx::Sym, Eigen::Dynamic, 1>
-#define MatrixXd Matrix< ::symx::Sym, Eigen::Dynamic, Eigen::Dynamic>
+#define Vector2d Matrix< ::symx::Sym, 2, 1>
+#define RowVector2d Matrix< ::symx::Sym, 1, 2>
 #define Matrix2d Matrix< ::symx::Sym, 2, 2>
+#define Array2d Array< ::symx::Sym, 2, 1>
+#define Vector3d Matrix< ::symx::Sym, 3, 1>
+#define RowVector3d Matrix< ::symx::Sym, 1, 3>
 #define Matrix3d Matrix< ::symx::Sym, 3, 3>
+#define Array3d Array< ::symx::Sym, 3, 1>
+#define Vector4d Matrix< ::symx::Sym, 4, 1>
+#define RowVector4d Matrix< ::symx::Sym, 1, 4>
+#define Matrix4d Matrix< ::symx::Sym, 4, 4>
+#define Array4d Array< ::symx::Sym, 4, 1>
+#define VectorXd Matrix< ::symx::Sym, Eigen::Dynamic, 1>
+#define RowVectorXd Matrix< ::symx::Sym, 1, Eigen::Dynamic>
+#define MatrixXd Matrix< ::symx::Sym, Eigen::Dynamic, Eigen::Dynamic>
+#define ArrayXd Array< ::symx::Sym, Eigen::Dynamic, 1>
+#define Matrix2Xd Matrix< ::symx::Sym, 2, Eigen::Dynamic>
+#define MatrixX2d Matrix< ::symx::Sym, Eigen::Dynamic, 2>
+#define Array2Xd Array< ::symx::Sym, 2, Eigen::Dynamic>
+#define ArrayX2d Array< ::symx::Sym, Eigen::Dynamic, 2>
+#define Array22d Array< ::symx::Sym, 2, 2>
+#define Matrix3Xd Matrix< ::symx::Sym, 3, Eigen::Dynamic>
+#define MatrixX3d Matrix< ::symx::Sym, Eigen::Dynamic, 3>
+#define Array3Xd Array< ::symx::Sym, 3, Eigen::Dynamic>
+#define ArrayX3d Array< ::symx::Sym, Eigen::Dynamic, 3>
+#define Array33d Array< ::symx::Sym, 3, 3>
+#define Matrix4Xd Matrix< ::symx::Sym, 4, Eigen::Dynamic>
+#define MatrixX4d Matrix< ::symx::Sym, Eigen::Dynamic, 4>
+#define Array4Xd Array< ::symx::Sym, 4, Eigen::Dynamic>
+#define ArrayX4d Array< ::symx::Sym, Eigen::Dynamic, 4>
+#define Array44d Array< ::symx::Sym, 4, 4>
+#define ArrayXXd Array< ::symx::Sym, Eigen::Dynamic, Eigen::Dynamic>
 #endif
 #include "SplineOptimizer.hpp"
 #ifndef SYMX_NATIVE
 #undef double
-#undef VectorXd
-#undef MatrixXd
+#undef Vector2d
+#undef RowVector2d
 #undef Matrix2d
+#undef Array2d
+#undef Vector3d
+#undef RowVector3d
 #undef Matrix3d
+#undef Array3d
+#undef Vector4d
+#undef RowVector4d
+#undef Matrix4d
+#undef Array4d
+#undef VectorXd
+#undef RowVectorXd
+#undef MatrixXd
+#undef ArrayXd
+#undef Matrix2Xd
+#undef MatrixX2d
+#undef Array2Xd
+#undef ArrayX2d
+#undef Array22d
+#undef Matrix3Xd
+#undef MatrixX3d
+#undef Array3Xd
+#undef ArrayX3d
+#undef Array33d
+#undef Matrix4Xd
+#undef MatrixX4d
+#undef Array4Xd
+#undef ArrayX4d
+#undef Array44d
+#undef ArrayXXd
 #endif
